@@ -436,9 +436,16 @@ class Interp:
         args = [self.ev(f, a, env) for a in st.get('args', [])]
         if cls not in self.prog.classes:
             if cls.startswith(('std::vector<', 'std::deque<', 'std::list<')):
-                return list(args[0]) if args and isinstance(args[0], list) else []
+                out = list(args[0]) if args and isinstance(args[0], list) else []
+                if st.get('move') and args and isinstance(args[0], list):
+                    del args[0][:]          # move construction: the source is left empty (what libstdc++ does, and what the code relies on)
+                return out
             if cls.startswith(('std::map<', 'std::unordered_map<', 'std::set<', 'std::unordered_set<')):
-                return dict(args[0]) if args and isinstance(args[0], dict) else {'__map__': True}
+                out = dict(args[0]) if args and isinstance(args[0], dict) else {'__map__': True}
+                if st.get('move') and args and isinstance(args[0], dict):
+                    for k_ in [k_ for k_ in args[0] if k_ != '__map__']:
+                        del args[0][k_]
+                return out
             if cls.startswith(('std::basic_string', 'std::__cxx11::basic_string')):
                 a_ = [x for x in args if x is not None]
                 if self.string_mode:
@@ -700,6 +707,8 @@ class Interp:
                 self.run(f, c, env)
         elif k == 'DeclStmt':
             for d in st['decls']:
+                if 'd' not in d:
+                    continue            # a using-declaration, a typedef: nothing to hold
                 ct = d.get('ct') or d.get('t') or ''
                 if d.get('vla') is not None and 'init' not in d:
                     n = self.ev(f, d['vla'], env)
